@@ -66,6 +66,8 @@ structure ShardState where
   active : Bool := false
   /-- `selfmeta <shard> on`: this node is a metachain node (its coordinator's `SelfId` is the metachain id) -/
   selfMeta : Bool := false
+  /-- `selfas <node> <id>`: this node has been reassigned to serve another shard (its coordinator's `SelfId` is `id`) -/
+  selfAs : Option Nat := none
 deriving Inhabited
 
 structure World where
@@ -87,7 +89,7 @@ def World.payableFn (w : World) (a : Bytes) : PayAns :=
   | none => .yes
 
 def World.env (w : World) (s : Nat) (sh : ShardState) : Env :=
-  { self := if sh.selfMeta then metaShard else s, nshards := w.nshards, payable := w.payableFn, dns := w.dns, nameChange := w.nameChange,
+  { self := if sh.selfMeta then metaShard else sh.selfAs.getD s, nshards := w.nshards, payable := w.payableFn, dns := w.dns, nameChange := w.nameChange,
     gas := sh.gas, active := sh.active }
 
 inductive CallStatus
